@@ -36,16 +36,18 @@ type c58Monitor struct {
 	// conns do (a *net.TCPConn returns an error); LimitListener must free exactly
 	// one slot either way.
 	recloseNil bool
-	taken      atomic.Int64 // handed out by the fake listener, Close not yet called
-	returned   atomic.Int64 // returned by LimitListener.Accept to the caller, Close not yet called
-	handed     atomic.Int64 // total handed out
-	closedN    atomic.Int64 // conns closed at least once
-	maxTaken   atomic.Int64
-	dblClosed  atomic.Int64
-	expect     int64         // stress: signal when closedN reaches this
-	allClosed  chan struct{} // stress
-	mu         sync.Mutex
-	err        error
+	// closeErr makes the wrapped listener's Close return an error (it still closes).
+	closeErr  bool
+	taken     atomic.Int64 // handed out by the fake listener, Close not yet called
+	returned  atomic.Int64 // returned by LimitListener.Accept to the caller, Close not yet called
+	handed    atomic.Int64 // total handed out
+	closedN   atomic.Int64 // conns closed at least once
+	maxTaken  atomic.Int64
+	dblClosed atomic.Int64
+	expect    int64         // stress: signal when closedN reaches this
+	allClosed chan struct{} // stress
+	mu        sync.Mutex
+	err       error
 }
 
 func (m *c58Monitor) fail(format string, a ...any) {
@@ -138,6 +140,10 @@ func (l *c58Listener) Accept() (net.Conn, error) {
 
 func (l *c58Listener) Close() error {
 	l.once.Do(func() { close(l.closed) })
+	if l.mon.closeErr {
+		// a listener whose cleanup reports an error although it has stopped accepting
+		return errors.New("c58: fake listener close error")
+	}
 	return nil
 }
 
@@ -268,6 +274,8 @@ type c58Case struct {
 	Sched   [][]c58Act `json:"sched"`
 	// RecloseNil: the wrapped conns return nil from a repeated Close (net.Pipe style).
 	RecloseNil bool `json:"reclose_nil"`
+	// CloseErr: the wrapped listener's Close returns an error although it closes.
+	CloseErr bool `json:"close_err"`
 }
 
 func c58Gen(t *rapid.T) c58Case {
@@ -298,6 +306,7 @@ func c58Gen(t *rapid.T) c58Case {
 		Workers:    rapid.IntRange(2, 5).Draw(t, "workers"),
 		Sched:      rapid.SliceOfN(batch, 1, 40).Draw(t, "sched"),
 		RecloseNil: rapid.Bool().Draw(t, "recloseNil"),
+		CloseErr:   rapid.IntRange(0, 3).Draw(t, "closeErr") == 0,
 	}
 }
 
@@ -330,7 +339,7 @@ func c58Prop(c c58Case, r *vp.Rec) error {
 
 func c58Run(c c58Case, r *vp.Rec) error {
 	n := c.Workers
-	mon := &c58Monitor{limit: int64(c.N), recloseNil: c.RecloseNil}
+	mon := &c58Monitor{limit: int64(c.N), recloseNil: c.RecloseNil, closeErr: c.CloseErr}
 	feeds := c.Prefill
 	for _, b := range c.Sched {
 		feeds += len(b)
